@@ -26,8 +26,9 @@ META = {
         "thorough": "N=8 tokens, widths 1..14",
     },
     "assumptions": [
-        "lenient reading: a segment 'fits' when it is <= width after removing trailing "
-        "spaces; the indivisible unit is one word or one article followed by one word",
+        "a segment 'fits' when its length including trailing spaces is <= width (the "
+        "segment is the emitted string literal); the indivisible unit is one word or "
+        "one article followed by one word",
         "consecutive articles and an article followed by a double space may end a "
         "segment (the implementation treats them deliberately; outside the rule)",
     ],
@@ -65,7 +66,7 @@ def check_case(text: str, width: int) -> Tuple[List[Violation], int]:
 
     for i, segment in enumerate(segments):
         words = [w for w in segment.split(" ") if w != ""]
-        if len(segment.rstrip(" ")) > width:
+        if len(segment) > width:
             indivisible = len(words) <= 1 or (
                 len(words) == 2 and words[0] in ARTICLES
             )
